@@ -9,6 +9,7 @@
   7; its continuation after `if`/`match`/`while`/`for` 8.
 -/
 import RotoV.Lemmas.ParseTypes
+import RotoV.Lemmas.ParseFText
 
 namespace RotoV.Parse
 open RotoV RotoV.Lex
@@ -64,7 +65,9 @@ theorem fText_spec {s0 s : PState} (sp : Span) (parts : List Sx) (hi : InvB 2 c 
     SpecR c False (Post c s0 0 fun _ _ => True) (fText c sp parts s) := by
   unfold fText
   split
-  · split
+  · rw [fPieces_ok]
+    dsimp only
+    split
     · rename_i k esp he
       pfail hi, (hl _ _ _ _ _ he)
     · rw [addNode_k]
